@@ -18,6 +18,8 @@ import (
 	"path/filepath"
 	"sort"
 	"strings"
+	"sync"
+	"time"
 
 	"github.com/influxdata/influxdb/models"
 	"github.com/influxdata/influxdb/tsdb"
@@ -770,12 +772,24 @@ func vC09Diff(want, got vC09Content, skip map[string]bool) string {
 	return ""
 }
 
+var vC09Sweep sync.Once
+
 // vC09TempDir makes the directory of one case: on tmpfs when the machine has one (the code under
 // test fsyncs every file and directory it touches, which on a shared disk costs more than the
 // compaction itself), otherwise under TMPDIR.
 func vC09TempDir() (string, error) {
 	if os.Getenv("VERIF_C09_NO_SHM") == "" {
 		if fi, err := os.Stat("/dev/shm"); err == nil && fi.IsDir() {
+			vC09Sweep.Do(func() {
+				// directories of processes that were killed (driver timeout) more than 2 hours ago
+				if old, err := filepath.Glob("/dev/shm/verif-c09-*"); err == nil {
+					for _, d := range old {
+						if st, err := os.Stat(d); err == nil && time.Since(st.ModTime()) > 2*time.Hour {
+							os.RemoveAll(d)
+						}
+					}
+				}
+			})
 			if d, err := os.MkdirTemp("/dev/shm", "verif-c09-"); err == nil {
 				return d, nil
 			}
